@@ -23,7 +23,8 @@ Notation normal_form := Bip39Props.normal_form.
 
 Theorem wordlists_ok : forall wl, In wl bip39_langs ->
   length wl = 2048%nat /\ NoDup wl /\
-  Forall (fun w => w <> [] /\ Forall (fun c => is_space c = false /\ c < 1114112) w) wl.
+  Forall (fun w => w <> [] /\
+                   Forall (fun c => is_space c = false /\ c < 1114112 /\ ~ (55296 <= c <= 57343)) w) wl.
 Proof.
   intros wl H. destruct (Bip39WordlistsOk.bip39_list_ok wl H) as (A & B & _ & C). exact (conj A (conj B C)).
 Qed.
